@@ -248,6 +248,11 @@ BULK = {("Add=", "1"): {("Add=", "$I"), ("Add=", "1")},
         (".append", ""): {(".extend", ""), (".append", "")}}
 
 
+def c01_proxy(report, mapping):
+    from .c01 import Report_proxy
+    return Report_proxy(report, mapping)
+
+
 def run(p, report, tier):
     report.rule("R10.1", "a list that a strategy's update builds in a loop over the candidates and hands to "
                 "budget_manager_.update together with the caller's queried_indices receives exactly one append on "
@@ -510,6 +515,14 @@ def run(p, report, tier):
             it = Interp(p)
             it.run_entity(ci, f)
             c05.check_entity(p, report, ci, f, it, r_param="R10.10", r_arr=None, r_est=None)
+    # ---------------- R10.12 premises shared with C04
+    report.rule("R10.12", "what update commits is what the budget manager built for the configured budget accounts: the "
+                "manager is built once and with self.budget on the query path and on the update path alike, query and "
+                "update filter instances with the same tests, and the committed increments are counts of rows / of "
+                "queried indices (shared with C04 R4.6 - R4.8)", floor=20)
+    proxy12 = c01_proxy(report, {"R4.6": "R10.12", "R4.7": "R10.12", "R4.8": "R10.12"})
+    c04.check_manager_construction(p, proxy12)
+    c04.check_commit_counts(p, proxy12, c04.entities(p))
     # ---------------- R10.11
     report.rule("R10.11", "the utility of an instance is computed from its own row: a reduction along axis 1 of a "
                 "(instances x classes) matrix that is recombined elementwise with such a matrix keeps the reduced axis "
@@ -883,8 +896,14 @@ def _norm_test(test, branch, seed_map, tails):
     pos = (branch == "body") != neg
     txt = " ".join(ast.unparse(t).split())
     if "self.budget_" in txt:
-        # the budget guard itself is judged by R4.1/R4.2/R10.2; here only its presence and branch
-        txt = "$BUDGET_GUARD"
+        # the budget guard itself is judged by R4.1/R4.2/R10.2; here its presence, its branch and whether the
+        # comparison is strict (simulation and commit must agree on what happens at an exact tie)
+        strict = ""
+        if isinstance(t, ast.Compare) and len(t.ops) == 1 and isinstance(t.ops[0], (ast.Lt, ast.LtE)):
+            budget_right = "self.budget_" in ast.unparse(t.comparators[0])
+            strict = ("[est<budget]" if isinstance(t.ops[0], ast.Lt) else "[est<=budget]") if budget_right else \
+                ("[budget<est]" if isinstance(t.ops[0], ast.Lt) else "[budget<=est]")
+        txt = "$BUDGET_GUARD" + strict
     return (txt, "T" if pos else "F")
 
 
